@@ -59,6 +59,9 @@ Firsts ==
     \* a literal backslash in front of a letter ( \\\\d  \\\\w  \\\\s  \\\\D : "C:\\data" ), alone and repeated
     \cup {Cat(<<Lit(92, "esc"), Lit(c, "raw")>>) : c \in {100, 119, 115, 68}}
     \cup {Rep(Cat(<<Lit(92, "esc"), Lit(100, "raw")>>), 1, Inf), Cat(<<La, Lit(92, "esc"), Lit(119, "raw")>>)}
+    \* classes that reach the control character DEL (greenery prints it back as an escape)
+    \cup {Rep(CSet(FALSE, <<Rng(32, "x", 127, "X")>>), 1, Inf), Rep(CSet(FALSE, <<Rng(126, "raw", 127, "x")>>), 0, Inf),
+          Rep(CSet(FALSE, <<One(97, "raw"), One(127, "x")>>), 1, Inf)}
 Seconds ==
     {Rep(Dot, 1, 2), Rep(Dot, 2, 2), Rep(Dot, 0, Inf), Rep(Dot, 1, Inf), Rep(CSet(FALSE, <<Rng(97, "raw", 99, "raw")>>), 1, Inf),
      Cat(<<La, Rep(Dot, 0, Inf)>>), Cat(<<Rep(Dot, 0, Inf), Lb>>), Rep(CSet(TRUE, <<One(97, "raw")>>), 0, Inf),
